@@ -5,7 +5,9 @@
    Only statements here; proofs live in Proofs/C02*.v. *)
 From Coq Require Import List NArith ZArith Bool String.
 From GoGit Require Import Base.Out Model.ObjLines Model.Ident Model.Commit Model.Tag
-     Spec.GitFields Spec.ObjWf Proofs.ObjLinesFacts Proofs.C02Dec Proofs.C02Ident Proofs.C02Commit Proofs.C02Tag Proofs.C02Message Proofs.C02IdentGit.
+     Model.SigPayload Spec.GitFields Spec.ObjWf Spec.GitExtra Spec.GitSig Spec.SigGuards
+     Proofs.ObjLinesFacts Proofs.C02Dec Proofs.C02Ident Proofs.C02Commit Proofs.C02Tag Proofs.C02Message Proofs.C02IdentGit
+     Proofs.C02CommitGit Proofs.C02TagGit Proofs.C02Extra Proofs.C03CommitSig Proofs.C03CommitSig256.
 Import ListNotations.
 Local Open Scope N_scope.
 
@@ -74,12 +76,15 @@ Theorem C02_message_matches_git : forall raw c g m,
 Proof. exact message_matches_git. Qed.
 Print Assumptions C02_message_matches_git.
 
-(* PARTIAL for identities: for every author/committer/tagger value that passes
-   the boolean clauses person_ok (one '<', one '>', in order; no leading blank,
-   no TAB/CR before the trailing blanks of the name) and date_ok (nothing after
-   '>', or exactly " <digits> [+-]hhmm" with digits < 2^63, mm < 60, not -00mm
-   with mm > 0, no further digit), Signature.Decode yields the name, e-mail and
-   raw date that git's split_ident_line / show_ident_date report *)
+(* PARTIAL for identities: for every author/committer value that passes the
+   boolean clauses person_ok (one '<', exactly one '>' after it — a '>' inside
+   the name is harmless; the name is blank, or has no leading blank and no
+   TAB/CR before its trailing blanks) and date_ok (no digit at all after the
+   last '>', or exactly " <digits> [+-]hhmm" with digits < 2^63, mm < 60, not
+   -00mm with mm > 0, no further digit), Signature.Decode yields the name,
+   e-mail and raw date that git's split_ident_line / show_ident_date report.
+   Each remaining conjunct of the clauses is needed: see the _refuted witnesses
+   and the known-finding classes commit-ident-person / commit-ident-date. *)
 Theorem C02_ident_matches_git_partial : forall v,
   no_lf v = true -> person_ok v = true -> date_ok v = true ->
   let i := decode_ident v in
@@ -95,6 +100,17 @@ Theorem C02_ident_matches_git_refuted :
    git_person (Some v) <> (id_name i, id_email i, go_date i)).
 Proof. split; vm_compute; discriminate. Qed.
 Print Assumptions C02_ident_matches_git_refuted.
+
+(* the weaker clauses really reach further than the canonical shape: a '>' in
+   the name, a blank name, a tail without any digit *)
+Example C02_ident_clauses_weak :
+  (let v := str "a>b <x@y> 5 +0100" in person_ok v = true /\ date_ok v = true /\
+     git_person (Some v) = (str "a>b", str "x@y", str "5 +0100")) /\
+  (let v := str "  <x@y> 5 +0100" in person_ok v = true /\ date_ok v = true /\
+     git_person (Some v) = ([], str "x@y", str "5 +0100")) /\
+  (let v := str "A <x@y> -x +y" in person_ok v = true /\ date_ok v = true /\
+     git_person (Some v) = (str "A", str "x@y", [])).
+Proof. vm_compute. repeat split. Qed.
 
 Example C02_ident_clauses_nonvacuous :
   let v := str "A U Thor <author@example.com> 1234567890 -0330" in
@@ -113,6 +129,176 @@ Proof.
   split; (do 2 eexists; split; [vm_compute; reflexivity|split; [vm_compute; reflexivity|vm_compute; discriminate]]).
 Qed.
 Print Assumptions C02_fields_match_git_refuted.
+
+(* ---- PARTIAL, commit level: for EVERY stored commit that go-git decodes and
+   git parses, the decoded tree and message are git's, and each further field
+   is git's under the boolean clauses of Spec/ObjWf.commit_agree_of that
+   concern it (each clause is the negation of a known-finding class):
+   parents under ca_parents (the leading "parent " block is one git reads the
+   same way), author / committer identity, date and zone under ca_position
+   (author, committer directly after the parents, no stray one later) and the
+   person / date clauses of that line, encoding under ca_encoding (no bare
+   "encoding" line; go-git's default "UTF-8" is git's "no encoding header"). *)
+Theorem C02_commit_fields_match_git_partial : forall raw c g,
+  decode_commit raw = Ok c -> git_log_fields raw = GOk g ->
+  let a := commit_agree_of raw in
+  hex_encode (c_tree c) = gl_tree g /\
+  (ca_parents a = true -> map hex_encode (c_parents c) = gl_parents g) /\
+  (ca_position a = true -> ca_aperson a = true -> ca_adate a = true ->
+     (id_name (c_author c), id_email (c_author c), go_date (c_author c)) = (gl_an g, gl_ae g, gl_ad g)) /\
+  (ca_position a = true -> ca_cperson a = true -> ca_cdate a = true ->
+     (id_name (c_committer c), id_email (c_committer c), go_date (c_committer c)) = (gl_cn g, gl_ce g, gl_cd g)) /\
+  (ca_encoding a = true -> enc_agrees (c_enc c) (gl_enc g)) /\
+  (forall m, gl_body g = Some m -> c_msg c = m).
+Proof. exact commit_fields_match_git. Qed.
+Print Assumptions C02_commit_fields_match_git_partial.
+
+(* non-vacuity: a merge commit with a '>' in the author name, a date-less
+   committer, an encoding header and a later extra header passes every clause *)
+Example C02_commit_clauses_nonvacuous :
+  let raw := str "tree 4b825dc642cb6eb9a060e54bf8d69288fbee4904" ++ [10] ++
+             str "parent 1111111111111111111111111111111111111111" ++ [10] ++
+             str "parent 2222222222222222222222222222222222222222" ++ [10] ++
+             str "author a>b <x@y> 5 +0100" ++ [10] ++ str "committer C <c@d>" ++ [10] ++
+             str "encoding latin1" ++ [10] ++ str "x-k v" ++ [10; 10] ++ str "msg" ++ [10] in
+  let a := commit_agree_of raw in
+  ca_parents a = true /\ ca_position a = true /\ ca_aperson a = true /\ ca_adate a = true /\
+  ca_cperson a = true /\ ca_cdate a = true /\ ca_encoding a = true /\
+  exists c g, decode_commit raw = Ok c /\ git_log_fields raw = GOk g /\
+              List.length (gl_parents g) = 2%nat /\ gl_an g = str "a>b" /\ gl_cd g = [] /\ gl_enc g = str "latin1".
+Proof. vm_compute. repeat split. do 2 eexists. repeat split. Qed.
+
+(* ---- extra headers.  git has no output format for them; what git takes them
+   to be is commit.c read_commit_extra_headers (gpgsig excluded), observable
+   through `git commit --amend`, which re-writes them (S = Spec/GitExtra,
+   compared with the binary on every check).  FULL STATEMENT
+     decode_commit raw = Ok c -> c_extra c = map extra_norm (git_extras raw)
+   (go-git keeps each value without its trailing LFs) is FALSE: a header line
+   without a space, a continuation line behind a standard header, an extra
+   header cut off by the end of the object *)
+Theorem C02_extras_match_git_refuted :
+  (exists c, decode_commit (str "tree 4b825dc642cb6eb9a060e54bf8d69288fbee4904" ++ [10] ++ str "x-flag" ++ [10; 10]) = Ok c /\
+             c_extra c <> map extra_norm (git_extras (str "tree 4b825dc642cb6eb9a060e54bf8d69288fbee4904" ++ [10] ++ str "x-flag" ++ [10; 10]))) /\
+  (exists c, decode_commit (str "tree 4b825dc642cb6eb9a060e54bf8d69288fbee4904" ++ [10] ++ str "encoding x" ++ [10] ++ str " y" ++ [10; 10]) = Ok c /\
+             c_extra c <> map extra_norm (git_extras (str "tree 4b825dc642cb6eb9a060e54bf8d69288fbee4904" ++ [10] ++ str "encoding x" ++ [10] ++ str " y" ++ [10; 10]))) /\
+  (exists c, decode_commit (str "tree 4b825dc642cb6eb9a060e54bf8d69288fbee4904" ++ [10] ++ str "x-k v") = Ok c /\
+             c_extra c <> map extra_norm (git_extras (str "tree 4b825dc642cb6eb9a060e54bf8d69288fbee4904" ++ [10] ++ str "x-k v"))).
+Proof. repeat split; (eexists; split; [vm_compute; reflexivity|vm_compute; discriminate]). Qed.
+Print Assumptions C02_extras_match_git_refuted.
+
+(* PARTIAL: under the boolean clause extras_guard (every header line is
+   LF-terminated, every header line that is not a continuation has a space, no
+   continuation line behind tree / parent / author / committer / encoding),
+   Commit.ExtraHeaders are git's extra headers — any keys, any number of
+   continuation lines, empty values, duplicates, gpgsig headers in between *)
+Theorem C02_extras_match_git_partial : forall raw c,
+  decode_commit raw = Ok c -> extras_guard raw = true ->
+  c_extra c = map extra_norm (git_extras raw).
+Proof. exact extras_match_git. Qed.
+Print Assumptions C02_extras_match_git_partial.
+
+Example C02_extras_guard_nonvacuous :
+  let raw := str "tree 4b825dc642cb6eb9a060e54bf8d69288fbee4904" ++ [10] ++ str "author A <a@b> 1 +0000" ++ [10] ++
+             str "mergetag object 1" ++ [10] ++ str " type commit" ++ [10] ++ str " " ++ [10] ++ str " sig" ++ [10] ++
+             str "gpgsig x" ++ [10] ++ str " y" ++ [10] ++ str "x-empty " ++ [10] ++ str "mergetag again" ++ [10; 10] ++ str "m" in
+  extras_guard raw = true /\
+  git_extras raw = [(str "mergetag", str "object 1" ++ [10] ++ str "type commit" ++ [10; 10] ++ str "sig" ++ [10]);
+                    (str "x-empty", [10]); (str "mergetag", str "again" ++ [10])].
+Proof. vm_compute. split; reflexivity. Qed.
+
+(* ---- signatures: Commit.Signature / Commit.SignatureSHA256 are git's
+   signature buffers of a SHA-1 / SHA-256 repository (statement and proof
+   shared with C03: Proofs/C03CommitSig, C03CommitSig256) ---- *)
+Theorem C02_commit_sigs_match_git_partial : forall raw c,
+  decode_commit raw = Ok c -> commit_sig_guard raw = true -> hdr_terminated raw = true ->
+  c_sig c = snd (fst (git_commit_payload_fmt SHA1 raw)) /\
+  c_sig256 c = snd (fst (git_commit_payload_fmt SHA256 raw)).
+Proof. intros raw c Hd Hg Ht. split; [exact (sig_eq_pbsh _ _ Hd Hg Ht)|exact (sig256_eq_pbsh _ _ Hd Hg Ht)]. Qed.
+Print Assumptions C02_commit_sigs_match_git_partial.
+
+(* ---- the commit-level statement in one piece: when ALL boolean clauses hold,
+   EVERY decoded field of the commit — tree, parents, author and committer
+   identities with dates and zones, encoding, extra headers, both signatures,
+   message — is the one git itself reports / extracts ---- *)
+Definition commit_all_clauses (raw : bytes) : bool :=
+  let a := commit_agree_of raw in
+  ca_parents a && ca_position a && ca_aperson a && ca_adate a && ca_cperson a && ca_cdate a && ca_encoding a &&
+  extras_guard raw && commit_sig_guard raw && hdr_terminated raw.
+
+Theorem C02_commit_all_fields_match_git_partial : forall raw c g,
+  decode_commit raw = Ok c -> git_log_fields raw = GOk g -> commit_all_clauses raw = true ->
+  hex_encode (c_tree c) = gl_tree g /\
+  map hex_encode (c_parents c) = gl_parents g /\
+  (id_name (c_author c), id_email (c_author c), go_date (c_author c)) = (gl_an g, gl_ae g, gl_ad g) /\
+  (id_name (c_committer c), id_email (c_committer c), go_date (c_committer c)) = (gl_cn g, gl_ce g, gl_cd g) /\
+  enc_agrees (c_enc c) (gl_enc g) /\
+  c_extra c = map extra_norm (git_extras raw) /\
+  c_sig c = snd (fst (git_commit_payload_fmt SHA1 raw)) /\
+  c_sig256 c = snd (fst (git_commit_payload_fmt SHA256 raw)) /\
+  (forall m, gl_body g = Some m -> c_msg c = m).
+Proof.
+  intros raw c g Hd Hg H. unfold commit_all_clauses in H.
+  repeat (apply andb_true_iff in H; destruct H as [H ?]).
+  destruct (commit_fields_match_git raw c g Hd Hg) as [F1 [F2 [F3 [F4 [F5 F6]]]]].
+  repeat split; auto.
+  - now apply extras_match_git.
+  - now apply sig_eq_pbsh.
+  - now apply sig256_eq_pbsh.
+Qed.
+Print Assumptions C02_commit_all_fields_match_git_partial.
+
+(* non-vacuity: a commit with a parent, a '>' in the author name, an encoding,
+   a multi-line mergetag, both signature headers and a later extra header
+   passes all clauses *)
+Example C02_commit_all_clauses_nonvacuous :
+  let raw := str "tree 4b825dc642cb6eb9a060e54bf8d69288fbee4904" ++ [10] ++
+             str "parent 1111111111111111111111111111111111111111" ++ [10] ++
+             str "author a>b <x@y> 5 +0100" ++ [10] ++ str "committer C <c@d> 7 -0130" ++ [10] ++
+             str "encoding latin1" ++ [10] ++ str "mergetag object 1" ++ [10] ++ str " type commit" ++ [10] ++
+             str "gpgsig -----BEGIN PGP SIGNATURE-----" ++ [10] ++ str " x" ++ [10] ++
+             str "gpgsig-sha256 -----BEGIN PGP SIGNATURE-----" ++ [10] ++ str " y" ++ [10] ++
+             str "x-k v" ++ [10; 10] ++ str "msg" ++ [10] in
+  commit_all_clauses raw = true /\
+  exists c g, decode_commit raw = Ok c /\ git_log_fields raw = GOk g /\
+              List.length (c_parents c) = 1%nat /\ List.length (c_extra c) = 2%nat /\ c_sig c <> [] /\ c_sig256 c <> [].
+Proof. vm_compute. split; [reflexivity|]. do 2 eexists. repeat split; discriminate. Qed.
+
+(* ---- PARTIAL, tag level (git = `git for-each-ref`: tag.c parse_tag_buffer,
+   ref-filter.c find_wholine / copy_name / copy_email / grab_date /
+   find_subpos): for EVERY stored tag that go-git decodes and git parses,
+   object, type, tag name and contents (message + signature) are git's; the
+   tagger's name and e-mail under ta_position (a "tagger " line only as the
+   fourth line) and ta_person; its date and zone under ta_date in addition *)
+Theorem C02_tag_fields_match_git_partial : forall raw t g,
+  decode_tag raw = Ok t -> git_tag_fields raw = GOk g ->
+  let a := tag_agree_of raw in
+  hex_encode (t_target t) = gt_object g /\ t_type t = gt_type g /\ t_name t = gt_tag g /\
+  (ta_position a = true -> ta_person a = true ->
+     id_name (t_tagger t) = gt_tn g /\
+     (gt_te g = LT :: id_email (t_tagger t) ++ [GT] \/ (gt_te g = [] /\ id_email (t_tagger t) = []))) /\
+  (ta_position a = true -> ta_person a = true -> ta_date a = true ->
+     gt_td g = Some (go_date_t (t_tagger t))) /\
+  drop_while (N.eqb LF) (t_msg t ++ t_sig t) = gt_contents g.
+Proof. exact tag_fields_match_git. Qed.
+Print Assumptions C02_tag_fields_match_git_partial.
+
+(* the full statement (no clauses) is false: tagger behind another header *)
+Theorem C02_tag_fields_match_git_refuted : exists raw t g,
+  decode_tag raw = Ok t /\ git_tag_fields raw = GOk g /\ id_name (t_tagger t) <> gt_tn g.
+Proof.
+  exists (str "object 4b825dc642cb6eb9a060e54bf8d69288fbee4904" ++ [10] ++ str "type tree" ++ [10] ++ str "tag v1" ++ [10] ++
+          str "x-k v" ++ [10] ++ str "tagger G <g@h> 3 +0200" ++ [10; 10] ++ str "m" ++ [10]).
+  do 2 eexists. split; [vm_compute; reflexivity|]. split; [vm_compute; reflexivity|]. vm_compute. discriminate.
+Qed.
+Print Assumptions C02_tag_fields_match_git_refuted.
+
+Example C02_tag_clauses_nonvacuous :
+  let raw := str "object 4b825dc642cb6eb9a060e54bf8d69288fbee4904" ++ [10] ++ str "type commit" ++ [10] ++ str "tag v1.0" ++ [10] ++
+             str "tagger T U <t@u> 1234567890 -0330" ++ [10] ++ str "gpgsig-sha256 x" ++ [10; 10; 10] ++ str "notes" ++ [10] in
+  let a := tag_agree_of raw in
+  ta_position a = true /\ ta_person a = true /\ ta_date a = true /\
+  exists g, git_tag_fields raw = GOk g /\ gt_tn g = str "T U" /\ gt_td g = Some (str "1234567890 -0330") /\ gt_contents g = str "notes" ++ [10].
+Proof. vm_compute. repeat split. eexists. repeat split. Qed.
 
 (* non-vacuity: a merge commit with two parents, a non-default encoding, a
    multi-line mergetag, an extra header with an empty line in its value, and
